@@ -33,7 +33,7 @@ import (
 //     passes are ranges over osm.Relations/osm.Ways/osm.Nodes, found from the exported Convert through helpers.
 // Files: c17.go (registration, G1, G2, G4), c17_cfg.go (CFG facts, finite-domain evaluation, regions, effects),
 // c17_role.go (multipolygon builder by role), c17_result.go (helper results under a valuation), c17_g3.go, c17_g4more.go, c17_g5.go, c17_g6.go, c17_g7.go with the symbolic
-// interpreter c17_sym*.go, c17_benign.go … c17_benign4.go
+// interpreter c17_sym*.go, c17_g8*.go (way-node set), c17_g9.go (node interest rule), c17_g10.go (id width), c17_closure.go and c17_g5_nonnil.go (G5), c17_benign.go … c17_benign6.go
 // (behaviour-preserving variants and defects seeded into refactored shapes).
 
 func init() {
@@ -45,9 +45,12 @@ func init() {
 			"(G2) no range over a map in the call tree appends to, or picks an element for, anything that outlives the loop; " +
 			"(G3) options only subtract: the value of an option field flows only into branch conditions (directly, through a local assigned once, a parameter, or the result of a helper: a one-line predicate, a boolean result of a helper with several returns, the ok of a (value, ok) pair, or the nil-ness of a helper result, all evaluated by walking the helper under the valuation); at every branch whose outcome depends on the option (three-valued evaluation of the condition with the option set and unset), the side taken when the option subtracts has no effect of its own and leaves only by nil/zero/unchanged-argument returns, and what it bypasses is, besides region-local state, only what the option documents (noID: stores of Feature.ID; noMeta: the meta property; noRelationMembership: the relations property, or updates of the membership map that are not bypassed when the member is a node; includeInvalidPolygons: only removes skips, and only inside the multipolygon builder); every store of Feature.ID / the meta / the relations property and every non-node-keyed read of the membership map is unreachable when the respective option is set; every option field is written only by its own Option constructor; " +
 			"(G4) the node/way/relation cases of the meta type switch are identical up to the element type, the names of case-local variables and the order of independent map fills; " +
-			"(G5) every feature emission reachable from Convert lies in exactly one element pass (range over the input's relations, ways or nodes, in Convert or in a helper), every path through one iteration emits at most one feature (helpers counted with their per-call maximum), in the ways pass every emission is controlled by the test that the way is not in the skippable set, and the relation pass, which fills that set, is complete before the ways pass starts; " +
+			"(G5) every feature emission reachable from Convert lies in exactly one element pass (range over the input's relations, ways or nodes, in Convert or in a helper), every path through one iteration emits at most one feature (helpers counted with their per-call maximum), in the ways pass every emission is controlled by the test that the way is not in the skippable set, every value emitted is known not to be nil where it is emitted (guard fact, built in place, or from a helper that never returns nil), a local closure bound once and only called is analysed as a helper, and the relation pass, which fills that set, is complete before the ways pass starts; " +
 			"(G6) a way is put into the skippable set only under the fact that the interest predicate is false for that way's own tags, and the discount set handed to the predicate is nil on every path reaching that guard (literal, local whose every assignment is examined, or helper parameter decided at the call sites); only inside the multipolygon builder may the discount set be non-nil, and only where no member other than an outer way can see it (the CFG is evaluated with <member>.Role != \"outer\": the guard is unreachable, or every non-nil assignment of the local carrying the set cannot execute or is overwritten before the guard, within one loop iteration); the old-style take-over of a relation by its single outer way is left to C16. " +
 			"(G7) the ring of the polygon made for an area way is the way's line closed by repeating its first point: the code between the way converter's entry and every orb.Polygon{ring} outside the multipolygon builder (closing helper included, wherever it lives) is interpreted symbolically for lines of 0..5 points, open and already closed, points being tokens of which only identity is known; every ring reaching such a literal starts with the input points, leaves a closed line unchanged and appends exactly the first point to an open one, and no path indexes the line out of range. " +
+			"(G8) the set of node ids the node pass consults for \"is part of a way\" (the context field that is a set of osm.NodeID: map to struct{} or bool, or a slice) is complete before it is read: every insertion records the way node of the current iteration of a range over a way's nodes on every path through the iteration (no condition on coordinates, on the node element, on tags; the loop is never left early), some statement of Convert is a complete pass (a range over the Ways field of the input every iteration of which records all nodes of its way, in place, in a per-way or per-node helper, or in a method holding the pass; a pass that leaves out exactly the ways found in the skippable set counts when every store into the skippable set is covered by a record of the same way's nodes), and the end of that pass dominates, in Convert, every statement through which the set is read. " +
+			"(G9) the node pass attempts a point (calls the node-to-feature function) exactly for nodes that are not in the way-node set, or have entries in the membership map, or whose own tags pass the interest test without discount set: one iteration is walked along feasible branches for each of the 8 valuations of these three facts, the conditions being evaluated through boolean locals, one-line predicates and helpers with several returns. " +
+			"(G10) in the functions of the package reachable from Convert no 64-bit osm id (NodeID, WayID, RelationID, FeatureID.Ref(), Member.Ref, or a plain int64 made from one, followed through locals, parameters and call sites) is converted to a type narrower than 64 bits on some supported configuration (int, uint, uintptr, int32 and smaller, float32) on its way into a feature or a lookup; constructs are keyed by what the value feeds and where the id comes from, so an extracted helper keeps them (the four stores of the `id` property as int(...) are a recorded known finding). " +
 			"All of G3-G6 are decided on guard facts and reachability, so if/switch forms, inverted branches, early returns, merged or split guards, if-init forms, locals naming a condition, extracted or inlined helpers and moved functions do not change the verdict. " +
 			"NOT decided: geometry values (ring winding, joined route geometry, which ways are areas: C18), the tag-interest rule itself, which nodes become points, JSON encoding of the result, mutation through reflection/unsafe, functions only reachable through calls VTA cannot resolve, option values that reach a function literal (reported as undecidable).",
 		Assumptions: []string{"go/types, go/cfg, go/ssa, VTA call graph (x/tools v0.29.0)", "no unsafe/reflect-based writes in the call tree: input memory is only reachable through the types reachable from osm.OSM",
@@ -58,7 +61,7 @@ func init() {
 		Technique: "SSA type-based effect analysis with allocation-freshness over the VTA call tree of Convert; go/cfg guard facts, three-valued finite-domain evaluation of branch conditions under option valuations, exclusive/bypassed CFG regions with interprocedural effect summaries; type-directed structural comparison of sibling cases modulo local naming and commuting statements; path counting over go/cfg loop bodies with per-call emission maxima",
 		DesignRef: "DESIGN.md §5 C17",
 		NeedSSA:   true,
-		Benign:    append(append(append(append([]core.Mutant{}, c17Benign...), c17Benign2...), c17Benign3...), c17Benign4...),
+		Benign:    append(append(append(append(append(append([]core.Mutant{}, c17Benign...), c17Benign2...), c17Benign3...), c17Benign4...), c17Benign5...), c17Benign6...),
 		Rules: []*core.Rule{
 			// Floors count what a behaviour-preserving refactoring cannot remove:
 			// G1/G2: Convert, the four option setters and the exported osm/mputil API the conversion needs (Tags.Map, Tags.Find,
@@ -66,7 +69,7 @@ func init() {
 			//        (38 in the tree today; unexported helpers may be inlined or split freely);
 			// G3: 4 option writes + at least one branch per option (two for noRelationMembership) + one guarded store of
 			//     Feature.ID, meta and relations each + one membership read = 13, floor 10;
-			// G7: the way converter (one interpreted root); G4: the three element cases; G5: three passes + skippable + order; G6: the route builder's store and at least one
+			// G8: one insertion, coverage, one reader; G7: the way converter (one interpreted root); G4: the three element cases; G5: three passes + skippable + order; G6: the route builder's store and at least one
 			//     store in the multipolygon builder.
 			{ID: "G1", Floor: 12, Doc: "input immutability: no write into input-typed memory or package state anywhere in the call tree of Convert", Run: c17G1},
 			{ID: "G2", Floor: 12, Doc: "determinism: no order-dependent range over a map in the call tree of Convert", Run: c17G2},
@@ -75,6 +78,9 @@ func init() {
 			{ID: "G5", Floor: 5, Doc: "each element pass emits at most one feature per iteration on every path; skippable ways are not emitted; the relation pass precedes the ways pass", Run: c17G5},
 			{ID: "G6", Floor: 2, Doc: "a way becomes skippable only when it has no interesting tag of its own; tags may be discounted only for outer members inside the multipolygon builder", Run: c17G6},
 			{ID: "G7", Floor: 1, Doc: "the ring of an area way's polygon is the way's line closed by repeating its first point (symbolic evaluation of the closing code over lines of 0..5 points)", Run: c17G7},
+			{ID: "G8", Floor: 3, Doc: "the set of node ids that are part of a way is filled for every node of every way of the input before the node pass reads it", Run: c17G8},
+			{ID: "G9", Floor: 1, Doc: "the node pass attempts a point exactly for nodes that are not part of a way, are relation members, or have an interesting tag (finite-domain evaluation of one iteration)", Run: c17G9},
+			{ID: "G10", Floor: 4, Doc: "no 64-bit osm id is narrowed (int, int32, float32, …) on its way into a feature or a lookup in the conversion path", Run: c17G10},
 		},
 		Mutants: append([]core.Mutant{
 			{Name: "g6-route-way-ignores-relation-tags", File: "osmgeojson/convert.go", Find: "if !hasInterestingTags(way.Tags, nil) {\n\t\t\tctx.skippable[way.ID] = struct{}{}", Replace: "if !hasInterestingTags(way.Tags, relation.Tags.Map()) {\n\t\t\tctx.skippable[way.ID] = struct{}{}", ExpectRule: "G6", ExpectConstruct: "buildRouteLineString"},
@@ -115,7 +121,7 @@ func init() {
 			{Name: "g5-skippable-not-skipped", File: "osmgeojson/convert.go", Find: "\t\tif _, skip := ctx.skippable[way.ID]; skip {\n\t\t\tcontinue\n\t\t}\n", Replace: "", ExpectRule: "G5", ExpectConstruct: "skippable@Convert ways"},
 			{Name: "g5-skippable-inverted", File: "osmgeojson/convert.go", Find: "if _, skip := ctx.skippable[way.ID]; skip {", Replace: "if _, skip := ctx.skippable[way.ID]; !skip {", ExpectRule: "G5", ExpectConstruct: "skippable@Convert ways"},
 			{Name: "g5-node-loop-appends-in-inner-loop", File: "osmgeojson/convert.go", Find: "\t\tfeature := ctx.nodeToFeature(node)\n\t\tif feature != nil {\n\t\t\tfeatures = append(features, feature)\n\t\t}\n", Replace: "\t\tfeature := ctx.nodeToFeature(node)\n\t\tfor range ctx.relationMember[node.FeatureID()] {\n\t\t\tfeatures = append(features, feature)\n\t\t}\n", ExpectRule: "G5", ExpectConstruct: "loop@Convert nodes"},
-		}, append(append(append(append([]core.Mutant{}, c17RefactoredMutants...), c17Mutants2...), c17Mutants3...), c17Mutants4...)...),
+		}, append(append(append(append(append(append([]core.Mutant{}, c17RefactoredMutants...), c17Mutants2...), c17Mutants3...), c17Mutants4...), c17Mutants5...), c17Mutants6...)...),
 	})
 }
 
